@@ -81,6 +81,10 @@ class C06(Prop):
                 acts += ['countByValue']
             return {'parts': parts, 'ops': ops, 'action': rng.choice(acts)}
         act = rng.choice(LAZY)
+        if rng.random() < .35:
+            # a persisted step in the lineage: a touched partition is materialised as a whole, untouched ones not at all
+            for _ in range(rng.choice([1, 1, 2])):
+                ops.insert(rng.randint(0, len(ops)), {'op': 'persist'})
         return {'parts': parts, 'ops': ops, 'action': act, 'n': rng.randint(0, len(xs) + 3) if act == 'take' else 1}
 
     def fixed_cases(self, tier):
@@ -89,6 +93,10 @@ class C06(Prop):
         ops = [{'op': 'filter', 'f': 'even'}, {'op': 'map', 'f': 'add1'}]
         for n in range(0, 8):
             out.append({'parts': parts, 'ops': ops, 'action': 'take', 'n': n})
+        pops = [ops[0], {'op': 'persist'}, ops[1]]
+        for n in range(0, 8):
+            out.append({'parts': parts, 'ops': pops, 'action': 'take', 'n': n})
+        out.append({'parts': parts, 'ops': pops, 'action': 'isEmpty', 'n': 1})
         for a in ('first', 'isEmpty', 'collect', 'count', 'foreach'):
             out.append({'parts': parts, 'ops': ops, 'action': a, 'n': 1})
         out.append({'parts': [[1, 3], [5]], 'ops': ops, 'action': 'isEmpty', 'n': 1})
@@ -139,6 +147,8 @@ class C06(Prop):
                     rdd = rdd.flatMapValues(wrap(i, F.FLAT[o['f']]))
                 elif o['op'] == 'keyBy':
                     rdd = rdd.keyBy(wrap(i, F.MAP[o['f']]))
+                elif o['op'] == 'persist':
+                    rdd = rdd.persist() if i % 2 else rdd.cache()
                 else:
                     raise ValueError(o['op'])
             # (a) definition time: also defining sampling and persistence on top must not call anything
